@@ -23,6 +23,23 @@ LongPayloadCases ==
      @@ (IF CommandTable[c].kind \in {"unassigned", "unsupported"} THEN [fault |-> "command"] ELSE << >>)
         : c \in {0, 4, 7, 8, 9, 11, 13, 64, 66, 127, 128, 255}, fill \in {0, 160}, n \in {1023, 1024, 7607, 7608, 7609, 7610, 20000}}
 
+\* the commands CTAP 2.1 defines and this library does NOT support (bioEnrollment 0x09,
+\* authenticatorConfig 0x0D, the bio prototype 0x40) followed by bodies of the shape the standard
+\* gives them -- sub-command, parameters, protocol, authentication -- stay InvalidCommand; so do the
+\* unassigned bytes followed by the same bodies and by valid bodies of the supported commands
+ConfigParams == {CMap(<< >>)} \cup {CMap(<< <<CU(1), CU(n)>> >>) : n \in {0, 4, 65, 66, 127, 128}}
+                \cup {CMap(<< <<CU(1), CU(4)>>, <<CU(2), CArr(<<CText(AsciiPattern(9, 11))>>)>>, <<CU(3), CBool(TRUE)>> >>)}
+SpecBodies ==
+    {Enc(CMap(<< <<CU(1), CU(sc)>> >>)) : sc \in {1, 2, 3, 255}}
+    \cup {Enc(CMap(<< <<CU(1), CU(sc)>>, <<CU(2), p>> >>)) : sc \in {1, 2, 3, 255}, p \in ConfigParams}
+    \cup {Enc(CMap(<< <<CU(1), CU(sc)>>, <<CU(2), p>>, <<CU(3), CU(2)>>, <<CU(4), CBytes(Pattern(3, 32))>> >>)) : sc \in {3, 255}, p \in ConfigParams}
+    \cup {Enc(CMap(<< <<CU(1), CU(1)>>, <<CU(2), CU(sc)>> >>)) : sc \in 1..7}                        \* bioEnrollment: modality, sub-command
+    \cup {Enc(CMap(<< <<CU(6), CBool(TRUE)>> >>))}                                                   \* bioEnrollment: getModality
+    \cup {ValidPayload(c) : c \in {1, 2, 6, 10, 12}}
+SpecBodyCases ==
+    {[op |-> "decode2", tag |-> "command-spec-body", c |-> c, sv |-> << >>, wire |-> <<c>> \o b, fault |-> "command"] :
+        c \in {0, 3, 5, 9, 13, 14, 64, 128, 255}, b \in SpecBodies}
+
 \* the prototype credential-management code must decode EXACTLY like 0x0A: every sub-command,
 \* every subset of parameters, faulty payloads too
 CmPayloads ==
@@ -40,7 +57,7 @@ PrototypeCases ==
 
 TableCases == {[op |-> "optable", tag |-> "optable", c |-> c] : c \in 0..255}
 
-MC_Cases == CommandCases \cup TableCases \cup PrototypeCases \cup LongPayloadCases
+MC_Cases == CommandCases \cup TableCases \cup PrototypeCases \cup LongPayloadCases \cup SpecBodyCases
 
 (***************************************************************************)
 (* C11 on the model                                                        *)
